@@ -10,7 +10,7 @@ import (
 func init() { register("C10", "other", checkC10) }
 
 func checkC10(c *Ctx, r *Report) {
-	r.Explanation = "Decided: (1) append contract by symbolic lengths: every member of the length set of Seal's result is len(dst)+len(plaintext)+tagSize, of Open's accepted result len(dst)+len(ciphertext)-tagSize, of Sum's result len(in)+32 — on the spare-capacity and on the reallocation path; ensureCapacity (both architectures) returns a reslice of its argument when capacity suffices (shared backing array: dst is the prefix) and otherwise a new slice into which the whole prefix is copied (copy / copyAsm with the prefix length; copyAsm itself consumes exactly len bytes); (2) INPUT-WRITE [proof-strength effect analysis]: for every API entry point no parameter other than the destination, and no receiver-owned or package-level storage, is in a may-write position of any callee, Go or assembler (may-write sets computed from the assembler listing) — on amd64 and arm64; (3) exact overlap: in every kernel and in the fused Seal/Open routines no load from the input happens after a store to the destination that covers the same bytes (LOAD-BEFORE-STORE per path, with absolute symbolic extents), so dst == src works. NOT decided: the bytes of the output (C05/C06)."
+	r.Explanation = "Decided: (1) append contract by symbolic lengths: every member of the length set of Seal's result is len(dst)+len(plaintext)+tagSize, of Open's accepted result len(dst)+len(ciphertext)-tagSize, of Sum's result len(in)+32 — on the spare-capacity and on the reallocation path; ensureCapacity (both architectures) returns a reslice of its argument when capacity suffices (shared backing array: dst is the prefix) and otherwise a new slice into which the whole prefix is copied (copy / copyAsm with the prefix length); CONSUMPTION: copyAsm, gHashBlocks and the fused Seal/Open routines advance every streamed parameter to its end on every path (every input byte is consumed, every destination byte of the contract is produced); (2) INPUT-WRITE [proof-strength effect analysis]: for every API entry point no parameter other than the destination, and no receiver-owned or package-level storage, is in a may-write position of any callee, Go or assembler (may-write sets computed from the assembler listing) — on amd64 and arm64; (3) exact overlap: in every kernel and in the fused Seal/Open routines no load from the input happens after a store to the destination that covers the same bytes (LOAD-BEFORE-STORE per path, with absolute symbolic extents), so dst == src works. NOT decided: the bytes of the output (C05/C06)."
 	r.Trusted = []string{"go/ssa", "assembler listing, opcode table", "Go append/copy semantics"}
 	for _, arch := range []string{"amd64", "arm64"} {
 		p, e, u := loadEffects(c, r, arch)
@@ -28,7 +28,7 @@ func checkC10(c *Ctx, r *Report) {
 		}
 		for _, rt := range u.Routines {
 			con := contracts[rt.Name]
-			if !rt.HasDecl || con == nil || (con.overlap == nil && rt.Name != "copyAsm") {
+			if !rt.HasDecl || con == nil || (con.overlap == nil && con.consumeSet == nil) {
 				continue
 			}
 			if c.Tier == "quick" && (rt.Name == "sealAsm") {
@@ -53,10 +53,20 @@ func checkC10(c *Ctx, r *Report) {
 				}
 				r.Obls = append(r.Obls, res.overlaps...)
 			}
-			if rt.Name == "copyAsm" {
+			if con.consumeSet != nil {
+				// every byte of the streamed inputs is consumed and every byte of the destination is produced, on every path
 				r.Obls = append(r.Obls, res.consumption...)
-				if len(res.consumption) < 2 {
-					r.Viol("CONSUMPTION", arch+"/copyAsm", "sm4/"+rt.File, "copy routine does not advance both pointers to the end")
+				r.Count("consumption_obligations_"+arch, len(res.consumption))
+				for pn := range con.consumeSet {
+					found := false
+					for _, o := range res.consumption {
+						if strings.HasSuffix(o.Key, ": "+pn) {
+							found = true
+						}
+					}
+					if !found {
+						r.Viol("CONSUMPTION", fmt.Sprintf("%s/%s: %s", arch, rt.Name, pn), "sm4/"+rt.File, "streamed parameter is never advanced on any path: its bytes are not all processed")
+					}
 				}
 			}
 		}
